@@ -622,7 +622,8 @@ def stride_folds(res, tier, okx):
         stats["SAME" if c[7] else "VALID", "kernel padded" if (o["l"] + o["r"]) else "kernel as is", "zero point" if o["zp"] else "zp 0"] += 1
         explicit = "EXPLICIT" in o["padding"]          # (a one-column / one-row OFM: the function then fixes the padding it computed before the fold)
         ifm_ok = o["ifm"][2] * o["n"] == c[1] and o["ifm"][3] == c[2] * o["n"]
-        ok = o["l"] >= 0 and ifm_ok and (m[0] == 1 or explicit)
+        pads_ok = o["l"] < 0 or o["real_pads"] == m[1:3]      # the model's SAME padding is Vela's own function's
+        ok = o["l"] >= 0 and ifm_ok and (m[0] == 1 or explicit) and pads_ok
         if not ok and bad < 5:
             bad += 1
             res.violation({"kind": "stride_fold", "case": c},
@@ -633,6 +634,7 @@ def stride_folds(res, tier, okx):
                               c[1], c[5], c[6], "SAME" if c[7] else "VALID", o["n"],
                               "the folded kernel is not the source kernel padded with the weights' zero point" if o["l"] < 0 else
                               "the folded IFM is not the source IFM" if not ifm_ok else
+                              "needed_total_padding gives another hardware padding than its model (props/C01.v needed_total_padding_is_reference)" if not pads_ok else
                               "the conditions under which the folded operator is proved to equal the source do not hold"))
     return {"cases": len(cases), "folded": len(folded), "kinds": {" / ".join(k): v for k, v in sorted(stats.items())}}
 
